@@ -17,6 +17,13 @@ fn main() {
     let stdout = io::stdout();
     let mut out = io::BufWriter::new(stdout.lock());
     let rt = tokio::runtime::Builder::new_current_thread().enable_all().build().unwrap();
+    if mode == "idents" {
+        // the certificate table, so that the plugin can check that its reference table is the same
+        for id in &util::make_pki().idents {
+            println!("{}|{}", id.sans.join(","), id.trusted as u8);
+        }
+        return;
+    }
     let pki = match mode.as_str() {
         "c19tls" | "c18" | "c18e2e" => Some(util::make_pki()),
         _ => None,
